@@ -1,6 +1,7 @@
 (* Channel "scc" (C15): strongly connected components by tarjan / kosaraju / symm_seq /
    symm_par, and renumbering by size. *)
 open Model
+open Model.SccM
 type string = Stdlib.String.t
 open Conv
 
